@@ -203,7 +203,8 @@ def maps_conformance(rnd, rounds=200):
         model = LazyIdMap(ids, alive, [z3.IntVal(k) for k in key])
         for _ in range(10):
             k, x = rnd.randint(1, 4), rnd.choice(ids)
-            op = rnd.choice(["in", "get", "remove", "append", "del", "set", "len", "list", "sort"])
+            op = rnd.choice(["in", "get", "remove", "append", "del", "set", "len", "list", "sort", "index", "delslice",
+                             "delitem", "insert", "pop", "count", "reverse", "add", "setitem", "truth"])
             calls = {
                 "in": lambda d: k in d,
                 "get": lambda d: list(d.get(k) or []),
@@ -214,6 +215,16 @@ def maps_conformance(rnd, rounds=200):
                 "len": lambda d: len(d[k]),
                 "list": lambda d: list(d[k]),
                 "sort": lambda d: (d[k].sort(key=lambda q: -q), list(d[k]))[1],
+                "index": lambda d: d[k].index(x),
+                "delslice": lambda d: (d[k].__delitem__(slice(d[k].index(x), None)), list(d[k]))[1],
+                "delitem": lambda d: (d[k].__delitem__(0), list(d[k]))[1],
+                "insert": lambda d: (d[k].insert(0, x), list(d[k]))[1],
+                "pop": lambda d: (d[k].pop(), list(d[k])),
+                "count": lambda d: d[k].count(x),
+                "reverse": lambda d: (d[k].reverse(), list(d[k]))[1],
+                "add": lambda d: list(d[k] + [x]),
+                "setitem": lambda d: (d[k].__setitem__(0, x), list(d[k]))[1],
+                "truth": lambda d: bool(d.get(k)),
             }
             f = calls[op]
             n += 1
